@@ -164,8 +164,7 @@ def known_for(prop):
 
 # --------------------------------------------------------------------------- meta
 def load_meta(prop):
-    m = json.load(open(os.path.join(VERIF, "harness", "meta.json")))
-    return m[prop]
+    return json.load(open(os.path.join(VERIF, "harness", "meta.d", prop + ".json")))
 
 def env_for_run():
     e = dict(os.environ)
@@ -417,7 +416,7 @@ def cmd_replay(prop, path):
     return 0 if r["outcome"] == "pass" else 1
 
 def all_props():
-    return sorted(json.load(open(os.path.join(VERIF, "harness", "meta.json"))).keys())
+    return sorted(os.path.basename(f)[:-5] for f in glob.glob(os.path.join(VERIF, "harness", "meta.d", "C*.json")) if not json.load(open(f)).get("disabled"))
 
 def main():
     a = sys.argv[1:]
